@@ -2,9 +2,7 @@ package c15
 
 import (
 	"fmt"
-	"reflect"
 
-	"ariga.io/atlas/schemahcl"
 	"ariga.io/atlas/sql/mysql"
 	"ariga.io/atlas/sql/postgres"
 	"ariga.io/atlas/sql/schema"
@@ -64,12 +62,12 @@ func intValues(attr string, thorough bool) []int {
 
 // specGrid enumerates the attribute grid of one registry TypeSpec: every prefix of its positional
 // attributes (absent / zero / small / large) × unsigned (absent / false / true) × value lists.
-func specGrid(sp *schemahcl.TypeSpec, thorough bool) []TypeCase {
+func specGrid(sp pinnedSpec, thorough bool) []TypeCase {
 	var (
-		pos      []*schemahcl.TypeAttr
+		pos      []pinnedAttr
 		unsigned bool
 	)
-	for _, a := range sp.Attributes {
+	for _, a := range sp.Attrs {
 		if a.Name == "unsigned" {
 			unsigned = true
 			continue
@@ -89,23 +87,23 @@ func specGrid(sp *schemahcl.TypeSpec, thorough bool) []TypeCase {
 		}
 		a := pos[i]
 		switch a.Kind {
-		case reflect.Int, reflect.Int64:
+		case "int", "int64":
 			for _, v := range intValues(a.Name, thorough) {
 				next := append(append([]Arg(nil), cur...), Arg{K: a.Name, I: ip(v)})
 				tuples = append(tuples, next)
 				rec(i+1, next)
 			}
-		case reflect.Slice:
+		case "slice":
 			for _, vs := range valueLists {
 				tuples = append(tuples, append(append([]Arg(nil), cur...), Arg{K: a.Name, S: vs}))
 			}
-		case reflect.Bool:
+		case "bool":
 			for _, v := range []bool{false, true} {
 				next := append(append([]Arg(nil), cur...), Arg{K: a.Name, B: bp(v)})
 				tuples = append(tuples, next)
 				rec(i+1, next)
 			}
-		case reflect.String:
+		case "string":
 			for _, v := range []string{"", "x"} {
 				next := append(append([]Arg(nil), cur...), Arg{K: a.Name, S: []string{v}})
 				tuples = append(tuples, next)
@@ -184,7 +182,8 @@ func typeGrid(d *dialect, thorough bool) (grid []gridType, nspecs int) {
 	for _, t := range parseSpellings[d.name] {
 		seenParse[t] = true
 	}
-	for _, sp := range d.reg.Specs() {
+	for _, sp := range allSpecs(d) {
+		sp := sp
 		nspecs++
 		for _, tc := range specGrid(sp, thorough) {
 			grid = append(grid, gridType{TC: tc, Spec: sp.Name})
@@ -192,16 +191,10 @@ func typeGrid(d *dialect, thorough bool) (grid []gridType, nspecs int) {
 			lt := tc
 			lt.Src = "lit"
 			grid = append(grid, gridType{TC: lt, Spec: sp.Name})
-			// … and, for the bare type (every optional parameter absent) and its one-argument forms, as
-			// the raw database spelling fed to ParseType.
-			if len(tc.Args) <= 1 && sp.FromSpec == nil {
-				ta, _ := hclAttrs(tc.Args)
-				if len(ta) == len(tc.Args) {
-					if txt, err := d.reg.PrintType(&schemahcl.Type{T: sp.T, Attrs: ta}); err == nil && !seenParse[txt] {
-						seenParse[txt] = true
-						grid = append(grid, gridType{TC: TypeCase{Src: "parse", Text: txt}, Spec: sp.Name})
-					}
-				}
+			// … and as the raw database spelling (written by the monitor, not by PrintType) fed to ParseType.
+			if txt, ok := rawSpelling(d, &sp, tc.Args); ok && !seenParse[txt] {
+				seenParse[txt] = true
+				grid = append(grid, gridType{TC: TypeCase{Src: "parse", Text: txt}, Spec: sp.Name})
 			}
 		}
 	}
@@ -218,15 +211,10 @@ func typeGrid(d *dialect, thorough bool) (grid []gridType, nspecs int) {
 			switch g.TC.Src {
 			case "hcl":
 				sp := specByName(d, g.TC.Spec)
-				if sp.FromSpec != nil {
+				if sp.Conv {
 					continue // interval fields have their own converter and no array syntax in HCL.
 				}
-				ta, _ := hclAttrs(g.TC.Args)
-				s, err := d.reg.PrintType(&schemahcl.Type{T: sp.T, Attrs: ta})
-				if err != nil {
-					continue
-				}
-				el = s
+				el, _ = rawSpelling(d, sp, g.TC.Args)
 			case "parse":
 				el = g.TC.Text
 			}
